@@ -89,6 +89,7 @@ def run(chk):
     # ---- C10.retention ----------------------------------------------------------------------------------
     retention(chk, repo)
     fold_limit(chk, repo)
+    body_error_rules(chk, repo)
 
     # ---- C10.limits (= C03.rp, rp2, rp3) -------------------------------------------------------------------
     hp = repo.func(MOD, "HttpParser.feed_data")
@@ -235,3 +236,35 @@ def fold_limit(chk, repo, rule="C10.fold"):
     else:
         chk.violation(rule, tests[0], norm.raw(tests[0].test), "a quantity increased in every iteration (running total of the folded value)",
                       "the size test inside the folding loop looks at one continuation line at a time: a field folded over many lines grows to about max_headers x max_field_size although every single test passes")
+
+
+def body_error_rules(chk, repo):
+    """C10.payloaderr (F66): an error found in the chunk framing is published on the body stream in the documented wrapped form
+    (payload_exception: ClientPayloadError / RequestPayloadError) - a reader already waiting for body data is woken with what is stored there.
+    C10.swallow (F67): a syntax or limit violation inside a chunked body / its trailers loses the message boundary, so the head parser must
+    re-raise it (400 / connection error) instead of storing it on the stream and going on to parse the following bytes as a new message."""
+    pp = repo.cls(MOD, "HttpPayloadParser")
+    raw = []
+    for m in pp.methods.values():
+        for c in prog.calls_in(m.node):
+            if isinstance(c.func, ast.Name) and c.func.id == "set_exception" and c.args and norm.raw(c.args[0]) == "self.payload":
+                wraps = any(isinstance(n, ast.Attribute) and n.attr in ("_payload_exception", "payload_exception") for n in ast.walk(m.node))
+                (raw if not wraps else []).append((m, c))
+                if wraps:
+                    chk.ok("C10.payloaderr", c, f"HttpPayloadParser.{m.name}(): the error is stored on the body stream in its wrapped (payload_exception) form")
+    for m, c in raw:
+        chk.violation("C10.payloaderr", c, K.short(c, 60), "wrapped with the configured payload_exception",
+                      f"HttpPayloadParser.{m.name}() stores the bare framing error on the body stream before raising; a consumer already awaiting the body (resp.read(), request.read()) is woken with TransferEncodingError - not a ClientError / not web.RequestPayloadError - while the same bytes in one read give the wrapped error")
+    hp = repo.func(MOD, "HttpParser.feed_data")
+    hs = [h for t in ast.walk(hp.node) if isinstance(t, ast.Try) for h in t.handlers if PC.handler_types(h) == ["Exception"] and any("_payload_parser.feed_data" in norm.raw(x) for x in t.body)]
+    if not hs:
+        chk.analysis_error("C10.swallow: handler around the body parser call not found in HttpParser.feed_data")
+    for h in hs:
+        rr = [r for r in ast.walk(h) if isinstance(r, ast.Raise) and r.exc is None]
+        tests = [i for i in ast.walk(h) if isinstance(i, ast.If) and any(r in list(ast.walk(i)) for r in rr)]
+        covered = any("BadHttpMessage" in norm.raw(i.test) or all(n in norm.raw(i.test) for n in ("LineTooLong", "TransferEncodingError", "InvalidHeader")) for i in tests)
+        if rr and covered:
+            chk.ok("C10.swallow", rr[0], "every protocol error of the body parser except a pure decoding failure is re-raised by the head parser")
+        else:
+            chk.violation("C10.swallow", tests[0] if tests else h, K.short(tests[0].test if tests else h, 70), "re-raise every BadHttpMessage except ContentEncodingError",
+                          "limit violations inside a chunked body (over-long chunk-size line or extension, over-long trailer field, too many trailers) are stored on the body stream and swallowed: the rest of the read is dropped, the body parser forgotten, and the next read - bytes the sender put *inside* the body - is parsed as a new request")
